@@ -34,6 +34,31 @@ impl Sandbox {
         Sandbox { path }
     }
 }
+impl Sandbox {
+    /// sandbox whose usable root is one level below the unique directory, so that "../x" stays inside
+    pub fn nested(tag: &str) -> (Sandbox, String) {
+        let sb = Sandbox::new(tag);
+        let r = format!("{}/r", sb.path);
+        std::fs::create_dir_all(&r).expect("create nested root");
+        (sb, r)
+    }
+}
+/// Irreversibly switch the worker process to an unprivileged user that owns the sandbox
+pub fn drop_privileges(sb: &Sandbox, uid: u32, gid: u32) -> bool {
+    unsafe {
+        if libc::geteuid() != 0 {
+            return true;
+        }
+        let _ = std::process::Command::new("chown").args(["-R", &format!("{}:{}", uid, gid), &sb.path]).output();
+        if libc::setgroups(0, std::ptr::null()) != 0 {
+            return false;
+        }
+        if libc::setgid(gid) != 0 || libc::setuid(uid) != 0 {
+            return false;
+        }
+        libc::geteuid() == uid
+    }
+}
 impl Drop for Sandbox {
     fn drop(&mut self) {
         // make everything removable again
@@ -131,6 +156,7 @@ pub enum Op {
     AllDirs(String),
     AllFiles(String),
     Entries(String), // default options, result as a sorted multiset of entry views
+    ConfigDir(String),
 }
 
 impl Op {
@@ -187,6 +213,7 @@ impl Op {
             AllDirs(..) => "all_dirs",
             AllFiles(..) => "all_files",
             Entries(..) => "entries",
+            ConfigDir(..) => "config_dir",
         }
     }
     /// path arguments in order
@@ -199,7 +226,7 @@ impl Op {
             | IsSymlinkFile(p) | IsExec(p) | IsReadonly(p) | Mode(p) | Owner(p) | Uid(p) | Gid(p) | Entry(p) | Paths(p) | Dirs(p) | Files(p) | AllPaths(p)
             | AllDirs(p) | AllFiles(p) | Entries(p) => vec![p],
             MoveP(a, b) | Copy(a, b) | CopyB(a, b, _, _) | Symlink(a, b) => vec![a, b],
-            Cwd | Root => vec![],
+            Cwd | Root | ConfigDir(_) => vec![],
         }
     }
     pub fn with_paths(&self, ps: &[String]) -> Op {
@@ -256,6 +283,7 @@ impl Op {
             AllDirs(_) => AllDirs(p()),
             AllFiles(_) => AllFiles(p()),
             Entries(_) => Entries(p()),
+            ConfigDir(n) => ConfigDir(n.clone()),
         }
     }
     pub fn is_query(&self) -> bool {
@@ -264,7 +292,7 @@ impl Op {
             self,
             ReadAll(_) | ReadLines(_) | ReadBytes(_) | Readlink(_) | ReadlinkAbs(_) | Cwd | Root | Abs(_) | Exists(_) | IsDir(_) | IsFile(_) | IsSymlink(_)
                 | IsSymlinkDir(_) | IsSymlinkFile(_) | IsExec(_) | IsReadonly(_) | Mode(_) | Owner(_) | Uid(_) | Gid(_) | Entry(_) | Paths(_) | Dirs(_) | Files(_)
-                | AllPaths(_) | AllDirs(_) | AllFiles(_) | Entries(_)
+                | AllPaths(_) | AllDirs(_) | AllFiles(_) | Entries(_) | ConfigDir(_)
         )
     }
     pub fn describe(&self) -> String {
@@ -558,6 +586,10 @@ fn exec_inner<V: VirtualFileSystem>(v: &V, op: &Op) -> Res {
         AllPaths(p) => r_paths(v.all_paths(p)),
         AllDirs(p) => r_paths(v.all_dirs(p)),
         AllFiles(p) => r_paths(v.all_files(p)),
+        ConfigDir(n) => match v.config_dir(n) {
+            Some(p) => Res::Path(ps(&p)),
+            None => Res::Unit,
+        },
         Entries(p) => match v.entries(p) {
             Ok(es) => {
                 let mut out = vec![];
